@@ -58,6 +58,8 @@ pub enum Ev {
     ClientLen(usize),
     /// a control client changes the liveness timeout at run time
     SetTimeout(u64),
+    /// one second of a 3 Mbit/s stream (285 datagrams of 1316 bytes, acknowledged)
+    SecHeavy,
     /// thirty client datagrams 10 ms apart (a stream slower than the flush tick, faster than nothing)
     Trickle,
     /// the receiver sends five datagrams back to back on the link (one recvmmsg batch for its reader task):
@@ -136,6 +138,10 @@ impl LoopModel {
                     Ev::Fault(0, Mode::BlackHole),
                 ]);
             }
+            // a heavy stream, stops, and reloads that keep the list (SIGHUP: one at a time)
+            6 => {
+                events = vec![Ev::SecHeavy, Ev::SecIdle, Ev::Reload("127.0.0.2\n127.0.0.3\n"), Ev::Sec];
+            }
             // a control client that never reads its subscription
             _ => {
                 events.extend([Ev::FrozenSubscriber("stats"), Ev::FrozenSubscriber("priority.window"), Ev::PublishWindow, Ev::Fault(1, Mode::BlackHole), Ev::Repair(1)]);
@@ -144,9 +150,9 @@ impl LoopModel {
         let name = format!(
             "real loop links={n} timeout={timeout} mode={} alphabet={}",
             if classic { "classic" } else { "enhanced" },
-            ["streaming", "faults", "bind-faults", "long-outage", "reloads", "frozen-subscribers"][level.min(5) as usize]
+            ["streaming", "faults", "bind-faults", "long-outage", "reloads", "frozen-subscribers", "heavy-stream"][if level == 6 { 6 } else { level.min(5) as usize }]
         );
-        Self { n, timeout, classic, events, name, single_thread: level == 4, lockstep: false, start_fault: false }
+        Self { n, timeout, classic, events, name, single_thread: level == 4 || level == 6, lockstep: false, start_fault: false }
     }
     pub fn with_start_fault(mut self) -> Self {
         self.start_fault = true;
@@ -195,6 +201,9 @@ struct LinkMon {
     present: bool,
     /// REG3 was delivered on the link's current socket (registered, as far as the receiver's answers say)
     reg3_on_this_socket: bool,
+    /// CC target the previous pass published, and whether it has left its initial value before
+    cc_prev: Option<u64>,
+    cc_seeded: bool,
 }
 
 struct Run<'a> {
@@ -229,6 +238,8 @@ struct Run<'a> {
     /// when it was last changed (teardown clauses allow either value for one timeout's length afterwards)
     timeout_prev: u64,
     timeout_changed_at: u64,
+    /// client sequence numbers below this one have been acknowledged by the receiver
+    acked_up_to: u32,
     /// source addresses of uplinks a reload removed (their sockets must be gone one pass later)
     removed_sockets: Vec<std::net::SocketAddr>,
     /// receivers of frozen subscribers (kept so the channels stay open and full)
@@ -269,6 +280,8 @@ fn fresh_link(now: u64) -> LinkMon {
         carried: Vec::new(),
         present: false,
         reg3_on_this_socket: false,
+        cc_prev: None,
+        cc_seeded: false,
     }
 }
 
@@ -550,6 +563,34 @@ impl<'a> Run<'a> {
             if st.connected && !(1000..=60000).contains(&st.window) {
                 return Err(Fail::new("real:window-out-of-range", format!("link {l}: window {} at +{now} ms", st.window)));
             }
+            // CC target as the loop publishes it: one controller step per pass, judged against this pass's measurement
+            {
+                let target = st.cc_target_bps;
+                let measured = st.bitrate_bytes_per_sec as u64 * 8;
+                if let Some(prev) = self.links[l].cc_prev {
+                    if target > prev && prev > 0 {
+                        if self.links[l].cc_seeded {
+                            if target as f64 > prev as f64 * 1.06 + 2.0 {
+                                return Err(Fail::new(
+                                    "real:cc-target-grew-more-than-6-percent-in-one-pass",
+                                    format!("link {l} at +{now} ms: published CC target {prev} -> {target} (+{:.2} %) in one housekeeping pass (measured {measured} bit/s, state {} / {})", (target as f64 / prev as f64 - 1.0) * 100.0, st.cc_state, st.cc_climb_mode),
+                                ));
+                            }
+                            if target > 2 * measured + 16 {
+                                return Err(Fail::new(
+                                    "real:cc-target-grew-beyond-twice-the-measured-rate",
+                                    format!("link {l} at +{now} ms: published CC target grew {prev} -> {target} in a pass that measured {measured} bit/s (state {} / {})", st.cc_state, st.cc_climb_mode),
+                                ));
+                            }
+                        }
+                        self.links[l].cc_seeded = true;
+                    }
+                }
+                if std::env::var("VERIF_TRACE").is_ok() {
+                    eprintln!("TRACE cc link {l} +{now}: target {target} measured {measured} state {} / {}", st.cc_state, st.cc_climb_mode);
+                }
+                self.links[l].cc_prev = Some(target);
+            }
             // keepalive cadence
             let live = st.connected && !st.timed_out;
             let got_ka = o.wire.iter().any(|(x, b)| *x == l && pkt_type(b) == Some(0x9000));
@@ -771,7 +812,7 @@ impl<'a> Run<'a> {
         for (p, c) in &self.copies {
             if p.len() >= 4 && p[0] & 0x80 == 0 {
                 let seq = u32::from_be_bytes([p[0], p[1], p[2], p[3]]);
-                if seq + 5 >= self.next_seq {
+                if seq >= self.acked_up_to {
                     if let Some((l, _)) = c.first() {
                         per_link[*l].push(seq);
                     }
@@ -790,6 +831,7 @@ impl<'a> Run<'a> {
                 top = top.max(q);
             }
         }
+        self.acked_up_to = self.next_seq;
         if top > 0 {
             if let Some(l) = (0..n).find(|l| self.links[*l].present && self.links[*l].mode != Mode::BlackHole && self.links[*l].rec_known) {
                 let mut p = vec![0u8; 44];
@@ -956,6 +998,26 @@ impl<'a> Run<'a> {
                 self.timeout_changed_at = self.now();
                 Ok(())
             }
+            Ev::SecHeavy => {
+                let hk = self.next_hk;
+                let mut k = 0u32;
+                while self.now() + 7 < hk - 40 && k < 285 {
+                    let t = self.now() + 3;
+                    self.to(t).await?;
+                    let seq = self.next_seq;
+                    self.next_seq += 1;
+                    self.client(srt_data(seq, false, seq, 1316)).await?;
+                    k += 1;
+                    if k % 32 == 0 {
+                        self.acks().await?;
+                    }
+                }
+                let t = (self.now() + 31).min(hk - 1);
+                self.to(t).await?;
+                self.check_forwarded()?;
+                self.acks().await?;
+                self.to(hk).await
+            }
             Ev::Trickle => {
                 for _ in 0..30 {
                     let t = self.now() + 10;
@@ -1111,6 +1173,7 @@ fn run_path_once(m: &LoopModel, path: &[usize]) -> RunResult {
             relay_tag: 0,
             passes: 0,
             cov: Cov::default(),
+            acked_up_to: 0,
             removed_sockets: Vec::new(),
             timeout: m.timeout,
             timeout_prev: m.timeout,
@@ -1343,6 +1406,7 @@ pub fn keys_of(prop: &str) -> &'static [&'static str] {
         ],
         "C09" => &["real:receiver-datagram-not-relayed", "real:client-received-unexpected-datagram"],
         "C14" => &["real:keepalive", "real:housekeeping-pass-stalled"],
+        "C16" => &["real:cc-target"],
         "C19" => &["real:reload", "real:refused-reload", "real:datagram-from-unknown-source"],
         "C20" => &["real:housekeeping-pass-stalled"],
         _ => &[],
@@ -1402,6 +1466,9 @@ pub fn plans_of(prop: &str, quick: bool) -> Vec<(LoopModel, RealPlan)> {
             v.push((LoopModel::new(2, 5000, false, 4), RealPlan::Full { depth: if quick { 2 } else { 4 } }));
             v.push((LoopModel::new(2, 5000, false, 4), RealPlan::Dev { k: if quick { 1 } else { 2 }, depth: if quick { 10 } else { 12 }, default: 0 }));
         }
+        "C16" => {
+            v.push((LoopModel::new(2, 5000, false, 6), RealPlan::Dev { k: if quick { 1 } else { 2 }, depth: if quick { 12 } else { 16 }, default: 0 }));
+        }
         "C20" => {
             v.push((LoopModel::new(2, 5000, false, 5), RealPlan::Full { depth: if quick { 3 } else { 4 } }));
             v.push((LoopModel::new(2, 5000, false, 5), RealPlan::Dev { k: 2, depth: if quick { 8 } else { 16 }, default: 0 }));
@@ -1443,6 +1510,7 @@ pub fn run_for(rep: &mut Report, prop: &str, quick: bool) {
         "C08" => &[("socket re-creations", total.socket_recreations), ("rejoins", total.rejoins), ("flaps gone dark", total.flaps)],
         "C09" => &[("receiver datagrams relayed", total.relayed)],
         "C14" => &[("keepalives", total.keepalives)],
+        "C16" => &[("client datagrams on the wire", total.forwarded), ("reloads applied", total.reloads_applied)],
         "C19" => &[("reloads applied", total.reloads_applied), ("reloads refused", total.reloads_refused)],
         "C20" => &[("frozen subscribers", total.frozen_subscribers), ("keepalives", total.keepalives)],
         _ => &[],
